@@ -153,9 +153,43 @@ def check_guard(inp):
         return Failure('guard', inp, 'TypeError', 'returned %r' % (res,),
                        '%s.modelcheck accepted a %s' % (checker, fm.kind(checker, t) or 'non-formula'))
     except TypeError:
-        return None
+        pass
     except Exception as e:
         return Failure('guard', inp, 'TypeError', 'raised %s: %s' % (type(e).__name__, str(e)[:100]))
+    # the same formula as TEXT (the documented modelcheck(K, 'text') usage), with the default parser
+    # and with the caller's own: text the checker's grammar does not read at all is refused by the
+    # parser (ParserError, C10); text it reads as something that is not a state formula must be
+    # refused with TypeError; what may never happen is an ANSWER
+    if fm.kind('CTLS', t) is not None:
+        from pyModelChecking.parser import ParserError
+        L = fm.lang(checker)
+        text = fm.to_text(t)
+        routes = [('parser=%s.Parser()' % checker, {'parser': _guard_parser(checker)})]
+        if (len(text) * 7 + fm.size(t)) % 11 == 0:
+            # building the default parser costs ~20 ms per call: one class in eleven
+            routes.insert(0, ('default parser', {}))
+        for how, kw in routes:
+            try:
+                with core.quiet():
+                    res = L.modelcheck(kripke, text, **kw)
+                return Failure('guard', inp, 'TypeError (or ParserError)', 'returned %r' % (res,),
+                               '%s.modelcheck(K, %r) with the %s accepted a %s given as text' % (
+                                   checker, text, how, fm.kind(checker, t) or 'non-formula'))
+            except (TypeError, ParserError):
+                pass
+            except Exception as e:
+                return Failure('guard', inp, 'TypeError (or ParserError)', 'raised %s: %s' % (type(e).__name__, str(e)[:100]),
+                               'text %r, %s' % (text, how))
+    return None
+
+
+_GUARD_PARSERS = {}
+
+
+def _guard_parser(checker):
+    if checker not in _GUARD_PARSERS:
+        _GUARD_PARSERS[checker] = fm.lang(checker).Parser()
+    return _GUARD_PARSERS[checker]
 
 
 def check_nonkripke(inp):
